@@ -214,16 +214,16 @@ void WorkThread::threadProc()
             }
 
             item = popOneTask();    //! 从任务队列中取出优先级最高的任务
+            //! mark it as running before the lock is released, so that getTaskStatus()
+            //! and cancel() never see a task that is neither waiting nor running
+            if (item != nullptr)
+                d_->doing_tasks_token.insert(item->token);
         }
 
         TBOX_VERIF_POINT("WorkThread.after_pop");
         //! 后面就是去执行任务，不需要再加锁了
         if (item != nullptr) {
             RECORD_SCOPE();
-            {
-                std::lock_guard<std::mutex> lg(d_->lock);
-                d_->doing_tasks_token.insert(item->token);
-            }
 
             LogDbg("thread pick task %u", item->token.id());
 
